@@ -17,16 +17,48 @@ pub fn lace_bin() -> String {
     std::env::var("LACE_BIN").unwrap_or_else(|_| "/verif/target/repo/debug/lace".into())
 }
 
+#[repr(C)]
+struct RLimit {
+    cur: u64,
+    max: u64,
+}
+extern "C" {
+    fn setrlimit(resource: i32, rlim: *const RLimit) -> i32;
+    fn signal(signum: i32, handler: usize) -> usize;
+}
+const RLIMIT_FSIZE: i32 = 1; // x86_64 Linux
+const SIGXFSZ: i32 = 25;
+const SIG_IGN: usize = 1;
+
 pub fn spawn(dir: &Path, args: &[&str], stdin: &[u8], timeout_ms: u64) -> ProcOut {
-    let mut child = Command::new(lace_bin())
-        .args(args)
+    spawn_limited(dir, args, stdin, timeout_ms, None)
+}
+
+/// `fsize`: a file size limit (RLIMIT_FSIZE, in bytes) in force in the child, with SIGXFSZ ignored,
+/// so that a write to a regular file beyond that many bytes fails with EFBIG after a short write —
+/// the way a full disk does. Pipes (the child's stdout/stderr) are not affected.
+pub fn spawn_limited(dir: &Path, args: &[&str], stdin: &[u8], timeout_ms: u64, fsize: Option<u64>) -> ProcOut {
+    use std::os::unix::process::CommandExt;
+    let mut cmd = Command::new(lace_bin());
+    cmd.args(args)
         .current_dir(dir)
         .env("NO_COLOR", "1")
         .stdin(Stdio::piped())
         .stdout(Stdio::piped())
-        .stderr(Stdio::piped())
-        .spawn()
-        .expect("spawn lace");
+        .stderr(Stdio::piped());
+    if let Some(lim) = fsize {
+        unsafe {
+            cmd.pre_exec(move || {
+                signal(SIGXFSZ, SIG_IGN);
+                let r = RLimit { cur: lim, max: lim };
+                if setrlimit(RLIMIT_FSIZE, &r) != 0 {
+                    return Err(std::io::Error::last_os_error());
+                }
+                Ok(())
+            });
+        }
+    }
+    let mut child = cmd.spawn().expect("spawn lace");
     {
         let mut si = child.stdin.take().unwrap();
         let _ = si.write_all(stdin);
@@ -539,7 +571,7 @@ pub fn run_c07(o: &crate::Opts) {
 }
 
 /// dest kinds: `absent`, `pre:<hex>`, `devfull`, `nodir`
-fn obs_c08(dir: &Path, src: &str, stack: bool, dest: &str) -> String {
+fn obs_c08(dir: &Path, src: &str, stack: bool, dest: &str, lim: Option<u64>) -> String {
     std::fs::write(dir.join("s.asm"), src).unwrap();
     let out = dir.join("out.lc3");
     let _ = std::fs::remove_file(&out);
@@ -557,7 +589,18 @@ fn obs_c08(dir: &Path, src: &str, stack: bool, dest: &str) -> String {
     if stack {
         a.extend_from_slice(&["-f", "stack"]);
     }
-    let k = spawn(dir, &a, &[], 20000);
+    let k = spawn_limited(dir, &a, &[], 20000, lim);
+    // anything left behind next to the destination (temporary files)
+    let extra = std::fs::read_dir(dir)
+        .map(|rd| {
+            rd.filter_map(|e| e.ok())
+                .filter(|e| {
+                    let n = e.file_name();
+                    n != "s.asm" && n != "out.lc3"
+                })
+                .count()
+        })
+        .unwrap_or(0);
     let after = if dest == "devfull" {
         "devfull".to_string()
     } else if dest == "nodir" {
@@ -568,7 +611,14 @@ fn obs_c08(dir: &Path, src: &str, stack: bool, dest: &str) -> String {
             Err(_) => "absent".to_string(),
         }
     };
-    format!("st={} dest={}", st(&k), after)
+    format!("st={} dest={} extra={}", st(&k), after, extra)
+}
+
+fn lim_tok(lim: Option<u64>) -> String {
+    match lim {
+        Some(l) => format!("{:x}", l),
+        None => "-".into(),
+    }
 }
 
 pub fn run_c08(o: &crate::Opts) {
@@ -580,7 +630,11 @@ pub fn run_c08(o: &crate::Opts) {
             let f: Vec<&str> = line.split_whitespace().collect();
             let obs = (|| {
                 let src = String::from_utf8(unhex(f.get(2)?)?).ok()?;
-                Some(obs_c08(&dir, &src, *f.get(1)? != "0", f.get(3)?))
+                let lim = match f.get(4) {
+                    None | Some(&"-") => None,
+                    Some(h) => Some(u64::from_str_radix(h, 16).ok()?),
+                };
+                Some(obs_c08(&dir, &src, *f.get(1)? != "0", f.get(3)?, lim))
             })()
             .unwrap_or_else(|| "bad-request".into());
             sink.put(line, &obs);
@@ -593,10 +647,29 @@ pub fn run_c08(o: &crate::Opts) {
     let per = total / o.nshards as u64;
     let mut kinds: std::collections::BTreeMap<String, u64> = Default::default();
     let mut samples = Vec::new();
+    // a write that fails after k bytes, for EVERY k from 0 to beyond the object file's length, on a
+    // small program (object file: 6 bytes), destination absent / shorter / longer than the object file
+    if o.shard == 0 {
+        let src = "add r0 r0 #1\nhalt\n";
+        for dest in ["absent", "pre:0102", "pre:a1a2a3a4a5a6a7a8a9aaabacadaeaf"] {
+            for k in 0..=8u64 {
+                let obs = obs_c08(&dir, src, false, dest, Some(k));
+                *kinds.entry(format!("limit-sweep:{}", obs.split(' ').next().unwrap())).or_default() += 1;
+                sink.put(&format!("S08 0 {} {} {}", hex(src.as_bytes()), dest, lim_tok(Some(k))), &obs);
+            }
+        }
+    }
     for i in 0..per {
         // failure injected at every statement position k of a small program, or no failure
+        // a file size limit (a write failing half-way) in two cases out of five: below, around and
+        // above the size of the object file; half of those on sources that assemble
+        let lim = match rng.below(5) {
+            0 => Some(rng.below(4)),
+            1 => Some(rng.below(2400)),
+            _ => None,
+        };
         let n = rng.range(1, 6) as usize;
-        let k = rng.below(n as u64 + 1) as usize; // k == n: no failure
+        let k = if lim.is_some() && rng.chance(1, 2) { n } else { rng.below(n as u64 + 1) as usize }; // k == n: no failure
         // the failing statement is any PC-relative form (CALL needs the stack feature)
         let forms = ["ld r1 far", "ldi r2 far", "lea r3 far", "st r4 far", "sti r5 far", "br far", "brnz far", "jsr far", "call far"];
         let form = *rng.pick(&forms);
@@ -625,12 +698,12 @@ pub fn run_c08(o: &crate::Opts) {
             _ => "nodir".to_string(),
         };
         let stack = (force_stack && i % 5 != 4) || rng.chance(1, 3);
-        let obs = obs_c08(&dir, &src, stack, &dest);
-        *kinds.entry(format!("{}:{}", dest.split(':').next().unwrap(), obs.split(' ').next().unwrap())).or_default() += 1;
+        let obs = obs_c08(&dir, &src, stack, &dest, lim);
+        *kinds.entry(format!("{}{}:{}", dest.split(':').next().unwrap(), if lim.is_some() { "+limit" } else { "" }, obs.split(' ').next().unwrap())).or_default() += 1;
         if samples.len() < 3 && rng.chance(1, 8) {
-            samples.push(format!("{{\"fail_at\":{},\"statements\":{},\"dest\":\"{}\",\"observed\":\"{}\"}}", k, n, dest, obs));
+            samples.push(format!("{{\"fail_at\":{},\"statements\":{},\"dest\":\"{}\",\"size_limit\":\"{}\",\"observed\":\"{}\"}}", k, n, dest, lim_tok(lim), obs));
         }
-        sink.put(&format!("S08 {} {} {}", stack as u8, hex(src.as_bytes()), dest), &obs);
+        sink.put(&format!("S08 {} {} {} {}", stack as u8, hex(src.as_bytes()), dest, lim_tok(lim)), &obs);
     }
     let kinds_json: Vec<String> = kinds.iter().map(|(k, v)| format!("\"{}\":{}", k, v)).collect();
     let n_cases = sink.n;
